@@ -810,8 +810,9 @@ int cif_parse_internal(struct scanner_s *scanner, int not_utf8, const char *extr
                 if (scanner->cif_version == 1) {
                     if (scanned_bom) {
                         /* error: disallowed CIF 1 character */
+                        /* the BOM itself may no longer be in the buffer, so no text is provided */
                         FAILURE_VARIABLE = scanner->error_callback(CIF_DISALLOWED_CHAR, 1, 0,
-                                scanner->next_char - 1, 1, scanner->user_data);
+                                scanner->next_char, 0, scanner->user_data);
                         /* recover, if necessary, by ignoring the problem */
                     }
                     SET_V1(scanner);
